@@ -40,6 +40,8 @@ impl<'a> Model<'a> {
 pub enum Probe {
     /// the i-th stored key
     Key(u16),
+    /// the stored key `off` positions away from the i-th one (clamped)
+    KeyOff(u16, i8),
     /// stored key ‖ 00 : the smallest string above that key
     Succ(u16),
     /// a string just below the stored key (see `pred_of`)
@@ -81,6 +83,14 @@ impl Probe {
         };
         match self {
             Probe::Key(i) => key(*i),
+            Probe::KeyOff(i, off) => {
+                if e.is_empty() {
+                    Vec::new()
+                } else {
+                    let j = (pick(*i, e.len()) as i64 + *off as i64).clamp(0, e.len() as i64 - 1);
+                    e[j as usize].0.clone()
+                }
+            }
             Probe::Succ(i) => {
                 let mut k = key(*i);
                 k.push(0);
@@ -182,24 +192,6 @@ pub enum Expect {
     Unspecified,
     /// nothing returned (reset)
     Nothing,
-}
-
-pub fn step_abs(m: &Model, op: &AbsOp) -> Option<usize> {
-    match op {
-        AbsOp::First => (!m.e.is_empty()).then_some(0),
-        AbsOp::Last => m.e.len().checked_sub(1),
-        AbsOp::Ge(q) => m.ceil(q),
-        AbsOp::Le(q) => m.floor(q),
-        AbsOp::Eq(q) => m.exact(q),
-    }
-}
-
-pub enum AbsOp<'a> {
-    First,
-    Last,
-    Ge(&'a [u8]),
-    Le(&'a [u8]),
-    Eq(&'a [u8]),
 }
 
 /// Model transition for relative moves. Returns (expectation, new position).
